@@ -36,14 +36,24 @@ theorem i16AsUsize_small (x : UInt16) (h : x < 0x8000) : i16AsUsize x = x.toNat 
 
 theorem walk_spec (f : File) (to : UInt16)
     (hdef : ∀ l ∈ f.links, l.deformerIndex.toNat < f.items.length ∧ (l.parent = none16 ∨ l.parent < 0x8000)) :
-    ∀ fuel i L, ancestors f.links fuel i = some L →
+    ∀ fuel i L, ancestors f.links (fuel + 1) i = some L →
     ∀ (next : Spec.Pbd.Link) (item : Spec.Pbd.Item) (acc : List Bone), f.links[i]? = some next →
     ∃ above, L.tail.mapM (itemOfLink f) = some above ∧
       walk (toModel f) to fuel (convItem item) (convLink next) acc =
         .ok (acc ++ (item.bones ++ (above.takeWhile (·.bodyId != to)).flatMap (·.bones)).map convBone) := by
   intro fuel
   induction fuel with
-  | zero => intro i L h; simp [ancestors] at h
+  | zero =>
+    intro i L h next item acc hnext
+    rw [ancestors] at h
+    simp only [hnext] at h
+    by_cases hp : next.parent = none16
+    · simp only [hp, if_true, Option.some.injEq] at h
+      subst h
+      refine ⟨[], by simp, ?_⟩
+      have : (convLink next).parent = 0xFFFF := hp
+      simp [walk, this, convItem]
+    · simp [hp, ancestors] at h
   | succ n ih =>
     intro i L h next item acc hnext
     rw [ancestors] at h
@@ -55,7 +65,7 @@ theorem walk_spec (f : File) (to : UInt16)
       have : (convLink next).parent = 0xFFFF := hp
       simp [walk, this, convItem]
     · simp only [hp, if_false] at h
-      cases ha : ancestors f.links n next.parent.toNat with
+      cases ha : ancestors f.links (n + 1) next.parent.toNat with
       | none => simp [ha] at h
       | some L' =>
         simp only [ha, Option.map_some, Option.some.injEq] at h
@@ -63,10 +73,6 @@ theorem walk_spec (f : File) (to : UInt16)
         -- the parent link exists (otherwise `ancestors` fails) …
         have hnm : next ∈ f.links := List.mem_of_getElem? hnext
         have hsmall : next.parent < 0x8000 := (hdef next hnm).2.resolve_left hp
-        obtain ⟨n', rfl⟩ : ∃ n', n = n' + 1 := by
-          cases n with
-          | zero => simp [ancestors] at ha
-          | succ n' => exact ⟨n', rfl⟩
         cases hl' : f.links[next.parent.toNat]? with
         | none => rw [ancestors] at ha; simp [hl'] at ha
         | some next' =>
@@ -83,7 +89,7 @@ theorem walk_spec (f : File) (to : UInt16)
             by_cases hp' : next'.parent = none16
             · simp [hp'] at ha; exact ⟨[], ha.symm⟩
             · simp only [hp', if_false] at ha
-              cases hx : ancestors f.links n' next'.parent.toNat with
+              cases hx : ancestors f.links n next'.parent.toNat with
               | none => simp [hx] at ha
               | some T => simp [hx] at ha; exact ⟨T, ha.symm⟩
           obtain ⟨T, rfl⟩ := hL'
